@@ -192,6 +192,8 @@ func RunSeq(s *kernel.Sim, prof *Profile) *Env {
 		e.Sink.mu.Lock()
 		e.Sink.FailAt = -1
 		e.Sink.mu.Unlock()
+		e.Corrupt = nil
+		delete(e.WhoIsFault, c.Addr)
 		if e.HTTP && prof.Dashboard && !s.Failed() && !e.auditLatched && t.Bool(1, 4) {
 			who := c
 			if nRestricted > 0 && t.Bool(1, 2) {
